@@ -307,6 +307,7 @@ pub fn run_framed(a: &Args) {
         out.case(&format!("framed backpressure n={}", n), &format!("{}", got == expected));
         if nb.shutdown() { out.violation("[C17,C01] event processing panicked"); }
     }
+    framed_stalled_reader(&mut out);
     server_speaks_first(t, &mut out);
     slow_consumer(t, &mut out);
     long_send_then_other_connection(t, &mut out);
@@ -436,6 +437,38 @@ pub fn run_tcp(a: &Args) {
     out.finish();
 }
 
+/// FramedTcp: a raw reader that reads nothing for 2.6 s while a 6 MiB message is being sent, then
+/// reads everything: the wire carries exactly the canonical frames of the messages reported Sent
+pub fn framed_stalled_reader(out: &mut Out) {
+    mark_scenario(out, "net_framed: a raw reader reads nothing for 2.6 s while a 6 MiB message is being sent, then reads everything; two more messages follow");
+    let t = Transport::FramedTcp;
+    let listener = TcpListener::bind("127.0.0.1:0").unwrap();
+    let addr = listener.local_addr().unwrap();
+    let nb = Net::new();
+    let (ep, _) = nb.ctl.connect(t, addr).unwrap();
+    let (mut peer, _) = listener.accept().unwrap();
+    nb.wait(3000, |ev| ev.iter().any(|e| matches!(e, Ev::Connected(e2, true) if *e2 == ep)));
+    let msgs: Vec<Vec<u8>> = vec![payload(21, 6 << 20), payload(22, 1000), payload(23, 70_000)];
+    let reader = std::thread::spawn(move || {
+        std::thread::sleep(Duration::from_millis(2600));
+        let mut got = vec![];
+        let mut buf = vec![0u8; 1 << 16];
+        peer.set_read_timeout(Some(Duration::from_millis(1500))).unwrap();
+        loop { match peer.read(&mut buf) { Ok(0) => break, Ok(n) => got.extend_from_slice(&buf[..n]), Err(_) => break } }
+        got
+    });
+    let st = send_all(&nb.ctl, ep, &msgs);
+    let got = reader.join().unwrap();
+    let sent: Vec<u8> = msgs.iter().zip(st.iter()).filter(|(_, s)| **s == SendStatus::Sent).flat_map(|(m, _)| { let mut f = leb128(m.len() as u64); f.extend_from_slice(m); f }).collect();
+    if got != sent || st.iter().any(|x| *x != SendStatus::Sent) {
+        let pos = got.iter().zip(sent.iter()).position(|(x, y)| x != y).unwrap_or(got.len().min(sent.len()));
+        out.violation(&format!("[C01,C13] FramedTcp, reader stalled 2.6 s inside a 6 MiB message: send() answered {:?}; the peer received {} bytes, the frames of the messages reported Sent are {} bytes, first difference at offset {}", st, got.len(), sent.len(), pos));
+    }
+    out.count("framed_stalled_reader");
+    out.case("framed stalledreader 6MiB,1000,70000", &format!("{}", got == sent));
+    if nb.shutdown() { out.violation("[C17,C01] event processing panicked"); }
+}
+
 /// WebSocket flavour of "the peer speaks first": a stock server sends a message right after its
 /// side of the handshake and goes silent; also in ONE write together with the 101 response
 pub fn ws_server_speaks_first(out: &mut Out) {
@@ -484,6 +517,38 @@ pub fn ws_server_speaks_first(out: &mut Out) {
     }
 }
 
+/// the deterministic form of the above (hook): every write of the node's websocket stream lingers
+/// 3 ms, so the server's 101 answer AND its first message are already there when the connector's
+/// handshake step goes on to read: the step that completes the handshake is the one that was
+/// started by the WRITE event of the TCP connect
+pub fn ws_handshake_completed_by_write_event(out: &mut Out) {
+    mark_scenario(out, "Ws: the connector's handshake completes inside the step started by the write event (3 ms hook delay after each write); the server's first message is already buffered");
+    for rep in 0..4u64 {
+        let l = TcpListener::bind("127.0.0.1:0").unwrap();
+        let laddr = l.local_addr().unwrap();
+        let greeting = payload(rep + 77, 150);
+        let g2 = greeting.clone();
+        let (done_tx, done_rx) = std::sync::mpsc::channel::<()>();
+        let server = std::thread::spawn(move || { let (s, _) = l.accept().ok()?; let mut ws = ws_accept(s).ok()?; ws.send(tungstenite::Message::Binary(g2.into())).ok()?; let _ = done_rx.recv_timeout(Duration::from_millis(2500)); Some(()) });
+        message_io::verif::set_ws_write_delay_us(3000);
+        let (ctl, mut processor) = network::split();
+        let (ep, _) = ctl.connect(Transport::Ws, laddr).unwrap();
+        let (mut connected, mut data) = (false, vec![]);
+        let end = Instant::now() + Duration::from_millis(1500);
+        while Instant::now() < end && data.is_empty() {
+            processor.process_poll_event(Some(Duration::from_millis(20)), |e| match e { NetEvent::Connected(e2, true) if e2 == ep => connected = true, NetEvent::Message(e2, d) if e2 == ep => data = d.to_vec(), _ => {} });
+        }
+        message_io::verif::set_ws_write_delay_us(0);
+        if !connected || data != greeting {
+            out.violation(&format!("[C01,C03] Ws connector: the server answered the handshake and sent its first message while the connector was still inside the handshake step started by the write event of the TCP connect; then silence: Connected(true)={}, the message was delivered within 1.5 s: {}", connected, data == greeting));
+        }
+        out.count("ws_handshake_completed_by_write_event");
+        out.case(&format!("ws handshake-in-write-step rep {}", rep), &format!("{} {}", connected, data == greeting));
+        let _ = done_tx.send(());
+        let _ = server.join();
+    }
+}
+
 /// the same against a node whose processor thread is already polling when the handshake answer and
 /// the server's first message arrive a few microseconds apart
 pub fn ws_server_speaks_first_threaded(out: &mut Out, reps: usize) {
@@ -514,7 +579,7 @@ pub fn ws_server_speaks_first_threaded(out: &mut Out, reps: usize) {
         let _ = done_tx.send(());
         let server_saw_close = server.join().ok().flatten().unwrap_or(false);
         if close_frame && !server_saw_close { out.violation("[C18,C04] Ws connector: the server sent a close frame and kept its TCP connection open; 2 s later the node still had not closed its socket"); }
-        if !ok || !okd { out.violation(&format!("[C01,C03,C04,C18] Ws connector, running processor: the stock server's first message right after the handshake{} then silence: message delivered within 2 s: {}, Disconnected after the close frame: {} (events: {})", if close_frame { " followed by a close frame" } else { "" }, ok, okd, node.snapshot().len())); }
+        if !ok || !okd { out.violation(&format!("[C01,C03,C04,C18] Ws connector, running processor: the stock server's first message right after the handshake{} then silence: message delivered within 2 s: {}, Disconnected after the close frame: {} (events: {:?}; greeting {} bytes)", if close_frame { " followed by a close frame" } else { "" }, ok, okd, node.snapshot().iter().map(|e| match e { Ev::Connected(_, b) => format!("Connected({})", b), Ev::Accepted(..) => "Accepted".to_string(), Ev::Message(_, d) => format!("Message({} bytes, equal {})", d.len(), *d == greeting), Ev::Disconnected(_) => "Disconnected".to_string() }).collect::<Vec<_>>(), greeting.len())); }
         out.count("ws_server_speaks_first_threaded");
         if node.shutdown() { out.violation("[C17,C01] event processing panicked"); }
     }
@@ -878,7 +943,12 @@ pub fn run_ws(a: &Args) {
             let me = stream.local_addr().unwrap();
             let (mut ws, _) = tungstenite::client(format!("ws://{}/x", addr), stream).expect("stock client handshake");
             let msgs: Vec<Vec<u8>> = (0..burst).map(|i| payload(i as u64 + 7, [0usize, 1, 125, 126, 300, 70000][i % 6])).collect();
-            for m in &msgs { ws.write(WsMessage::Binary(m.clone().into())).unwrap(); }
+            // (control frames between the data frames of one burst: a ping after the first message, a pong later)
+            for (mi, m) in msgs.iter().enumerate() {
+                ws.write(WsMessage::Binary(m.clone().into())).unwrap();
+                if mi == 0 && burst >= 3 { ws.write(WsMessage::Ping(vec![1, 2, 3].into())).unwrap(); }
+                if mi == 2 { ws.write(WsMessage::Pong(vec![9].into())).unwrap(); }
+            }
             ws.flush().unwrap(); // everything leaves in as few segments as possible
             let ok = na.wait(5000, |ev| ev[before.min(ev.len())..].iter().filter(|e| matches!(e, Ev::Message(ep, _) if ep.addr() == me)).count() >= burst);
             let got: Vec<Vec<u8>> = na.snapshot().into_iter().skip(before).filter_map(|e| match e { Ev::Message(ep, d) if ep.addr() == me => Some(d), _ => None }).collect();
@@ -982,6 +1052,7 @@ pub fn run_ws(a: &Args) {
         if nb.shutdown() { out.violation("[C17,C01] event processing panicked"); }
     }
     ws_server_speaks_first(&mut out);
+    ws_handshake_completed_by_write_event(&mut out);
     ws_server_speaks_first_threaded(&mut out, if a.thorough { 300 } else { 30 });
     out.finish();
 }
@@ -1020,6 +1091,8 @@ pub fn run_conc(a: &Args) {
         (Transport::FramedTcp, 6, if a.thorough { 60 } else { 12 }, vec![300_000, 700_000], true), // several socket buffers: partial writes, WouldBlock
         (Transport::Ws, 4, if a.thorough { 3000 } else { 400 }, vec![8, 100, 3000], true),
         (Transport::Ws, 4, if a.thorough { 40 } else { 8 }, vec![300_000], true),
+        (Transport::Ws, 3, if a.thorough { 12 } else { 4 }, vec![(1 << 20) + 5, 3 << 20, 1 << 20], true), // above any plausible fragment size
+        (Transport::FramedTcp, 3, if a.thorough { 12 } else { 4 }, vec![(1 << 20) + 5, 3 << 20], true),
         (Transport::Udp, 4, if a.thorough { 2000 } else { 300 }, vec![8, 100, 1200], false),
     ] {
         let Some((na, nb, lid, ep_a, ep_b)) = connect_pair(t) else { out.violation("[C10,C03] could not establish a connection"); continue };
@@ -1067,6 +1140,29 @@ pub fn run_conc(a: &Args) {
         out.add("conc_messages_sent", total as u64);
         out.case(&format!("conc {:?} threads {} per {} sizes {:?}", t, nthreads, per, sizes), &format!("{} {} {} {}", got.len(), corrupt, dup, order));
         if na.shutdown() | nb.shutdown() { out.violation("[C17,C10] event processing panicked"); }
+    }
+    // (deep search / thorough) a slow but live consumer: sends that queue for many seconds behind each other
+    if a.thorough || a.rest.iter().any(|x| x == "slow") {
+        for t in [Transport::FramedTcp, Transport::Ws] {
+            mark_scenario(&out, &format!("net_conc {:?}: 10 threads x 3 messages of 2 MiB to a consumer that takes 600 ms per message", t));
+            let na = Net::with_opts(None, 600);
+            let nb = Net::new();
+            let (_lid, addr) = na.ctl.listen(t, "127.0.0.1:0").unwrap();
+            let (ep_b, _) = nb.ctl.connect(t, addr).unwrap();
+            if !nb.wait(3000, |ev| ev.iter().any(|e| matches!(e, Ev::Connected(e2, true) if *e2 == ep_b))) { out.violation("[C10,C03] no connection"); continue; }
+            let handles: Vec<_> = (0..10u64).map(|th| { let ctl = nb.ctl.clone(); std::thread::spawn(move || { let mut st = vec![]; for s in 0..3u64 { st.push(ctl.send(ep_b, &tagged(th, s, 2 << 20))); } st }) }).collect();
+            let statuses: Vec<Vec<SendStatus>> = handles.into_iter().map(|h| h.join().unwrap()).collect();
+            let sent: usize = statuses.iter().flatten().filter(|s| **s == SendStatus::Sent).count();
+            let ok = na.wait(15_000, |ev| ev.iter().filter(|e| matches!(e, Ev::Message(..))).count() >= sent);
+            let got: Vec<Vec<u8>> = na.snapshot().into_iter().filter_map(|e| if let Ev::Message(_, d) = e { Some(d) } else { None }).collect();
+            let corrupt = got.iter().filter(|m| untag(m).is_none() || m.len() != (2 << 20) + 32).count();
+            if sent != 30 || !ok || got.len() != sent || corrupt > 0 || na.snapshot().iter().any(|e| matches!(e, Ev::Disconnected(_))) {
+                out.violation(&format!("[C10,C13] {:?}: 10 threads x 3 messages of 2 MiB to a consumer that takes 600 ms per message: {} of 30 send() calls answered Sent, {} messages delivered, {} of them corrupted or of a wrong size, connection dropped: {}", t, sent, got.len(), corrupt, na.snapshot().iter().any(|e| matches!(e, Ev::Disconnected(_)))));
+            }
+            out.count("conc_slow_consumer_big_messages");
+            out.case(&format!("conc slowconsumer {:?}", t), &format!("{} {}", got.len(), corrupt));
+            if na.shutdown() | nb.shutdown() { out.violation("[C17,C10] event processing panicked"); }
+        }
     }
     // the peer floods the connection with noise (so the sender's own network thread is busy with,
     // or queued for, that connection all the time) while a plain thread sends stop-and-wait:
@@ -1652,7 +1748,8 @@ pub fn run_life(a: &Args) {
             Err(_) => {}
         }
         // whatever happened: once the client is gone, the node holds no descriptor for it any more
-        let released = { let end = Instant::now() + Duration::from_secs(3); loop { if open_fds() < fd_base + 1 { break true; } if Instant::now() > end { break false; } std::thread::sleep(Duration::from_millis(10)); } };
+        // (fd_base counts the listener's descriptor, which remove(lid) has closed)
+        let released = { let end = Instant::now() + Duration::from_secs(3); loop { if open_fds() + 1 <= fd_base { break true; } if Instant::now() > end { break false; } std::thread::sleep(Duration::from_millis(10)); } };
         let accepted = node.snapshot().iter().any(|e| matches!(e, Ev::Accepted(..)));
         // (the descriptor is closed a moment before the Disconnected callback runs: wait for the event)
         let disconnected = accepted && node.wait(1000, |ev| ev.iter().any(|e| matches!(e, Ev::Disconnected(..))));
